@@ -508,8 +508,15 @@ def group(rng, r, level, maxmut):
     return [[b'base'] + [l.encode() for l, _ in ms], [r] + [m for _, m in ms]]
 
 
+KNOWN_IDS = None
+
+
 def known_ids():
-    return set(k['id'] for k in pipeline.load_known(ID))
+    """open findings of this property, read once per process (at the moment the pipeline reads them, see legs())"""
+    global KNOWN_IDS
+    if KNOWN_IDS is None:
+        KNOWN_IDS = set(k['id'] for k in pipeline.load_known(ID))
+    return KNOWN_IDS
 
 
 def gen_key(rng, tier):
@@ -756,6 +763,7 @@ CHAIN = Chain()
 
 
 def legs(tier):
+    known_ids()
     return [
         Leg('lp', gen_lp, rule='what OsString::hash feeds through HashToDigest (8-byte LE length + bytes, no terminator) '
                                'on random byte strings incl. empty, NUL, non-UTF-8, lengths around 255/256/65536'),
